@@ -144,8 +144,10 @@ CURATED = [
     ('LA', 'E', 'LA', 'JA'), ('JA', 'E', 'LA', 'N', 'LA', 'V'), ('LA', 'CA', 'V'), ('CB', 'E', 'LB', 'CA', 'N', 'LA', 'R'), ('E', 'JB', 'N', 'LB', 'LB', 'V'),
     ('LA', 'N', 'CB', 'JA', 'LB', 'V'), ('JB', 'LA', 'E', 'R', 'LB', 'JA'), ('CA', 'CA', 'LA', 'CA', 'V'), ('LB', 'LA', 'CB', 'CA', 'E'), ('N', 'JA'), ('CA', 'N'),
     ('LA', 'LB', 'JB', 'E'), ('E', 'LA', 'E', 'LB', 'CA', 'CB', 'V'),
+    # duplicated labels passed while another label is searched for, then targeted by a later jump
+    ('CB', 'LA', 'E', 'LA', 'N', 'LB', 'CA', 'V'), ('JB', 'LA', 'E', 'LA', 'LB', 'CA', 'R'), ('CB', 'LB', 'LA', 'E', 'LA', 'N', 'CA', 'LB', 'V'), ('CA', 'LB', 'E', 'LB', 'LA', 'CB', 'V'),
 ]
-SCHEDULES = [[True], [False], [False, True], [True, False, False]]
+SCHEDULES = [[True], [False], [False, True], [True, False, False], [True, True, False]]
 
 
 def _step_job(args):
